@@ -398,6 +398,9 @@ def readcd_format():
                         e["q-parity"] = s["q"]
             if v["c2ei"] == 1:
                 e["c2ei-data"] = s["c2"][:294]
+            elif v["c2ei"] == 2:
+                # C2 and block error bits: block error byte, pad byte and the 294 C2 bytes
+                e["c2ei"] = {"data": s["c2"][:296]}
             if v["scsb"] == 2:
                 # MMC-6 table "Formatted Q sub-channel response data"
                 q = s["sub"][:16]
@@ -410,8 +413,13 @@ def readcd_format():
         return {"$intkeys": out}
 
     def decode(data, v):
-        return _lib("scsi_cdb_readcd", "ReadCd").unmarshall_datain(data, lba=v["lba"], tl=v["tl"], est=v["est"],
-                                                                   mcsb=v["mcsb"], c2ei=v["c2ei"], scsb=v["scsb"])
+        kw = dict(lba=v["lba"], tl=v["tl"], est=v["est"], mcsb=v["mcsb"], c2ei=v["c2ei"], scsb=v["scsb"])
+        if v["lba"] % 2:
+            # selections that were not asked for may be left out by the caller (they default to "none")
+            for k in ("c2ei", "scsb"):
+                if kw[k] == 0:
+                    del kw[k]
+        return _lib("scsi_cdb_readcd", "ReadCd").unmarshall_datain(data, **kw)
     return Format("readcd", readcd_case(), build, expect, decode, lambda v: v["tl"], garbage_ok=True, cmd="readcd")
 
 
